@@ -92,11 +92,13 @@ template <class T> static void join_resid(const gh::Solvers& S, const Pair& p, c
   elon = ext > 0 ? (double)(ext * ref::deg<T>() * E.a * P.cbet2) : 0;
 }
 
+// ellipsoid shape tag used in violation keys (0.2 = limit of the series solver's documented range)
+static std::string shape_of(double f) { return f == 0 ? "sphere" : f > 0.2 ? "very-oblate" : f > 0 ? "oblate" : f < -0.2 ? "very-prolate" : "prolate"; }
 // sub-tag of the near-antipodal regime: the returned geodesic leaves and arrives (almost exactly) east-west, i.e. both end
 // points are (almost) vertices of the geodesic -- the neighbourhood of the cusp of the astroid on the line lat2 = -lat1
 static std::string subregime(const Pair& p, const Inv& o) {
-  if (p.regime == "near-antipodal" && std::fabs(std::fabs(o.azi1) - 90) < 1e-6 && std::fabs(std::fabs(o.azi2) - 90) < 1e-3) return p.regime + "/east-west-grazing";
-  return p.regime;
+  if (p.regime == "near-antipodal" && std::fabs(std::fabs(o.azi1) - 90) < 1e-6 && std::fabs(std::fabs(o.azi2) - 90) < 1e-3) return p.regime + "/east-west-grazing/" + shape_of(p.e.f);
+  return p.regime + "/" + shape_of(p.e.f);
 }
 // returns 0 = outputs unusable, 1 = judged but the join failed, 2 = the returned geodesic joins the points
 static int judge_one(Ctx& c, const gh::Solvers& S, const Pair& p, const char* solver, bool series, const Inv& o, q128 lon12q) {
@@ -110,13 +112,14 @@ static int judge_one(Ctx& c, const gh::Solvers& S, const Pair& p, const char* so
   // 180 deg plus round-off: the equatorial branch returns lon12 / (1 - f) after testing lon12 <= (1 - f) 180 in floating point,
   // so the excess can reach a few ulp(180) / (1 - f)
   const double a12max = 180 * (1 + 4 * 2.220446049250313e-16) + 1.2e-13 / std::min(1.0, std::fabs(1 - S.f));
-  if (!(o.a12 >= 0 && o.a12 <= a12max)) bad("range/a12", o.a12, a12max);
+  if (!(o.a12 >= 0 && o.a12 <= a12max)) bad("range/a12/" + p.regime + "/" + shape_of(p.e.f), o.a12, a12max);
   if (!(std::fabs(o.azi1) <= 180)) bad("range/azi1", o.azi1, 180);
   if (!(std::fabs(o.azi2) <= 180)) bad("range/azi2", o.azi2, 180);
-  if (!(o.s12 >= 0) || std::signbit(o.s12)) bad("range/s12-negative", o.s12, 0);
+  // (a distance that is negative by more than the tolerance is a different failure from a round-off sized one)
+  if (!(o.s12 >= 0) || std::signbit(o.s12)) bad(std::string(o.s12 < -T ? "range/s12-grossly-negative/" : "range/s12-negative/") + p.regime + "/" + shape_of(p.e.f), o.s12, 0);
   // (ii d) a shortest path contains no conjugate point: m12 >= 0
   c.obs("negative m12 / tolerance [" + sv + "]", -o.m12 / T, wit(p, solver).f("m12", o.m12));
-  if (!(o.m12 >= -T)) bad("not-shortest/m12-negative/" + p.regime, -o.m12, T);
+  if (!(o.m12 >= -T)) bad("not-shortest/m12-negative/" + p.regime + "/" + shape_of(p.e.f), -o.m12, T);
   // (i) join
   double epos, eazi, earc, elon, rm12;
   join_resid<ld>(S, p, o, lon12q, epos, eazi, earc, elon, rm12);
@@ -132,7 +135,7 @@ static int judge_one(Ctx& c, const gh::Solvers& S, const Pair& p, const char* so
   // both errors enter, each bounded by tol/|m12|
   if (eazi > 2 * T) bad("join/azi2/" + rg, eazi, 2 * T);
   if (earc > T) bad("join/a12/" + rg, earc, T);
-  if (epos <= T && elon > T) bad("range/longitudinal-extent", elon, T);      // (when the join fails this would only repeat it)
+  if (epos <= T && elon > T) bad("range/longitudinal-extent/" + p.regime + "/" + shape_of(p.e.f), elon, T);      // (when the join fails this would only repeat it)
   return epos <= T ? 2 : 1;
 }
 
@@ -194,13 +197,13 @@ static void check_pair(Ctx& c, Pair& p, const Opt& opt) {
     if (std::fabs((double)lon12q) == 180) { double f1 = std::fabs(angdiff(os.azi1, -ox.azi1)) * M_PI / 180 * mm, f2 = std::fabs(angdiff(os.azi2, -ox.azi2)) * M_PI / 180 * mm; if (std::max(f1, f2) < std::max(e1, e2)) { e1 = f1; e2 = f2; } }
     bool freeazi = p.regime == "coincident" || os.s12 == 0 || ox.s12 == 0 || (std::fabs(p.lat1) == 90 && p.lat1 == -p.lat2) || (p.e.f == 0 && std::fabs(os.a12 - 180) < 1e-9);
     c.obs("series vs exact: |s12 difference| / (tol_s + tol_x)", es / tol, wit(p, "series").f("err_m", es));
-    if (es > tol) c.viol("law:C02/series-vs-exact/s12", p.cls, wout(wit(p, "series"), os).f("exact_s12", ox.s12).f("err_m", es).f("tol_m", tol));
+    if (es > tol) c.viol("law:C02/series-vs-exact/s12/" + subregime(p, ox), p.cls, wout(wit(p, "series"), os).f("exact_s12", ox.s12).f("err_m", es).f("tol_m", tol));
     if (!freeazi) {
       c.obs("series vs exact: azimuth difference*|m12| / (tol_s + tol_x)", std::max(e1, e2) / tol, wit(p, "series"));
-      if (std::max(e1, e2) > tol) c.viol("law:C02/series-vs-exact/azimuth", p.cls, wout(wit(p, "series"), os).f("exact_azi1", ox.azi1).f("exact_azi2", ox.azi2).f("err_m", std::max(e1, e2)).f("tol_m", tol));
+      if (std::max(e1, e2) > tol) c.viol("law:C02/series-vs-exact/azimuth/" + subregime(p, ox), p.cls, wout(wit(p, "series"), os).f("exact_azi1", ox.azi1).f("exact_azi2", ox.azi2).f("err_m", std::max(e1, e2)).f("tol_m", tol));
     }
     double ea = std::fabs(os.a12 - ox.a12) * M_PI / 180 * S.b;
-    if (ea > tol) c.viol("law:C02/series-vs-exact/a12", p.cls, wout(wit(p, "series"), os).f("exact_a12", ox.a12).f("err_m", ea).f("tol_m", tol));
+    if (ea > tol) c.viol("law:C02/series-vs-exact/a12/" + subregime(p, ox), p.cls, wout(wit(p, "series"), os).f("exact_a12", ox.a12).f("err_m", ea).f("tol_m", tol));
   }
   // InverseLine
   if (okx) judge_line(c, S, *S.exact, p, "exact", false, ox, lon12q);
@@ -235,12 +238,12 @@ static void check_pair(Ctx& c, Pair& p, const Opt& opt) {
     double a = S.a, b = S.b, kmax = 1.01 * std::max(std::max(a / (b * b), 1 / a), b / (a * a));
     double chd = (double)ch;
     auto one = [&](const char* solver, const Inv& o, double T) {
-      if ((double)((q128)o.s12 - ch) < -T) c.viol(std::string("oracle:C02/") + solver + "/s12-shorter-than-chord/" + p.regime, p.cls, wout(wit(p, solver), o).f("chord", chd).f("tol_m", T));
+      if ((double)((q128)o.s12 - ch) < -T) c.viol(std::string("oracle:C02/") + solver + "/s12-shorter-than-chord/" + p.regime + "/" + shape_of(p.e.f), p.cls, wout(wit(p, solver), o).f("chord", chd).f("tol_m", T));
       if (chd * kmax < 1e-5) {
         q128 x = (q128)kmax * ch / 2, ub = ch * (1 + x * x / 6 + 3 * x * x * x * x / 40 + x * x * x * x * x * x);    // (2/k) asin(k c/2), rounded up
         double over = (double)((q128)o.s12 - ub);
         c.obs(std::string("short line: (s12 - chord-arc bound) / tolerance [") + solver + "]", over / T, wit(p, solver));
-        if (over > T) c.viol(std::string("oracle:C02/") + solver + "/not-shortest/chord-bound", p.cls, wout(wit(p, solver), o).f("chord", chd).f("err_m", over).f("tol_m", T));
+        if (over > T) c.viol(std::string("oracle:C02/") + solver + "/not-shortest/chord-bound/" + p.regime + "/" + shape_of(p.e.f), p.cls, wout(wit(p, solver), o).f("chord", chd).f("err_m", over).f("tol_m", T));
         c.event("short-line chord certificates");
       }
     };
@@ -260,7 +263,7 @@ static void check_pair(Ctx& c, Pair& p, const Opt& opt) {
           std::string sv = solver;
           c.obs("scan: (s12 - least joining length) / tolerance [" + sv + "]", over / T, wit(p, solver).f("err_m", over));
           if (joined) c.obs("scan: (least joining length - s12) / tolerance, library's geodesic joins (scan missed it if > 1) [" + sv + "]", -over / T, wit(p, solver).f("err_m", -over));
-          if (over > T) c.viol("oracle:C02/" + sv + "/not-shortest/scan/" + p.regime + (p.e.f < 0 ? "/prolate" : p.e.f > 0 ? "/oblate" : "/sphere"), p.cls,
+          if (over > T) c.viol("oracle:C02/" + sv + "/not-shortest/scan/" + p.regime + "/" + shape_of(p.e.f), p.cls,
                                wout(wit(p, solver), o).str("shorter_s12", ref::qstr(R.smin_q, 22)).str("shorter_azi_at_origin", ref::qstr(R.azi_origin_q, 18)).b("origin_is_point2", R.swapped).f("err_m", over).f("tol_m", T).i("nroots", R.nroots));
           if (-over > T && joined) c.event("global scans that missed the library's (joining) geodesic [" + sv + "]");
         };
